@@ -10,7 +10,7 @@ The edits were applied one at a time to scratch copies of /repo/robotools (outsi
   killed by the suite already (kept as easy positives):
     m03 m04 m05 m10 m11 m14 m15 m16 m20 m21 m38
 
-m27, m29 and m31 turned out not to change any property-relevant behaviour; they double as
+m27 and m29 (and, until unshift was judged outside the shifted region, m31) turned out not to change any property-relevant behaviour; they double as
 false-alarm probes.  The self-test driver (written with the framework) applies an entry to a
 scratch copy, points RVMON_REPO at it, runs the quick check of the property and expects exit 1
 (or exit 0 for the starred ones), then deletes the copy.
